@@ -263,9 +263,11 @@ def decode_number(data_raw: int, bit_offset: int, bit_length: int, signed: bool,
     # adjust resolution
     number_int *= resolution
 
-    if number_int < min_value:
+    # the scaled value is a float product, so a raw value sitting exactly on a range end
+    # (e.g. 65532 * 0.1) can land a few ulps outside it; tolerate that rounding error only
+    if number_int < min_value and not math.isclose(number_int, min_value, rel_tol=1e-12):
         raise ValueError("Value below minimum allowed")
-    if number_int > max_value:
+    if number_int > max_value and not math.isclose(number_int, max_value, rel_tol=1e-12):
         raise ValueError("Value above maximum allowed")
 
     return number_int
